@@ -427,6 +427,10 @@ C08_ErrStream == IsRet("BatchRead") /\ E.res = "closed" /\ hdr.wk = "err" =>
                  /\ Len(E.items) = Cardinality(Executed(E.b) \cap FailedJobs)
                  /\ \A j \in Executed(E.b) \cap FailedJobs : \E i \in DOMAIN E.items : E.items[i].ekey = j
 C08_NoCrash == ~crashed
+\* the batch's Wait (and reading its stream to the end) returns once every item has finished, was cancelled or was rejected:
+\* at rest nobody is still blocked in it then
+C08_WaitReturns == Quiescent => \A c \in Clients : pend[c].op \in {"BatchWait", "BatchRead"} /\ (\E i \in DOMAIN E.blocked : E.blocked[i] = c)
+                                   => ~HandleDone(pend[c])
 C08_PendingZeroAtWait == IsRet("BatchWait") /\ E.res # "nohandle" => E.pendingb = 0
 C08_PendingBounds == IsRet("BatchPending") /\ E.res = "val" =>
                  /\ E.v >= 0 /\ E.v <= Cardinality(ItemsOf(E.b))
